@@ -3,6 +3,7 @@ CONSTANTS
   Lines <- MCLines
   Configs <- MCConfigs
   MaxLen = 4
+  WithUws = TRUE
   MaxN = 5
 INIT Init
 NEXT Next
